@@ -1,6 +1,10 @@
 package core
 
-import "golang.org/x/tools/go/ssa"
+import (
+	"go/types"
+
+	"golang.org/x/tools/go/ssa"
+)
 
 // Loop is a natural loop of the CFG.
 type Loop struct {
@@ -65,16 +69,27 @@ func (l *Loop) Body() *ssa.BasicBlock {
 }
 
 // CarriedPhi returns the header phi of the source variable `name` and the
-// value it receives along the (single) back edge.
+// value it receives along the (single) back edge. When no phi has that name
+// (the variable was renamed) and exactly one header phi is a bool, that one is taken.
 func (l *Loop) CarriedPhi(name string) (*ssa.Phi, ssa.Value, *ssa.BasicBlock) {
+	var named, bools []*ssa.Phi
 	for _, in := range l.Header.Instrs {
 		ph, ok := in.(*ssa.Phi)
 		if !ok {
 			break
 		}
-		if ph.Comment != name {
-			continue
+		if ph.Comment == name {
+			named = append(named, ph)
 		}
+		if b, isBasic := ph.Type().Underlying().(*types.Basic); isBasic && b.Info()&types.IsBoolean != 0 {
+			bools = append(bools, ph)
+		}
+	}
+	cands := named
+	if len(cands) == 0 && len(bools) == 1 {
+		cands = bools
+	}
+	for _, ph := range cands {
 		for i, p := range l.Header.Preds {
 			if l.Blocks[p] && l.Header.Dominates(p) {
 				return ph, ph.Edges[i], p
